@@ -110,10 +110,14 @@ Definition circ_mkeys (c : circ) : list mkey := key_nodup (List.concat (map mome
 (* names of all keys an operation touches (measured or read), after the key maps on the way up:
    {k.name for k in measurement_keys_touched(op)} *)
 Definition conds_keys (cs : list cond) : list mkey := List.concat (map cond_keys cs).
+(* the keys of a repeat_until condition are control keys of the loop (minus its own measurements): their names count
+   as touched, also when the loop body never mentions them (a key measured in an enclosing scope) *)
+Definition until_names (f : subf) : list string :=
+  match until f with Some u => map kname (cond_keys u) | None => [] end.
 Fixpoint op_names (o : op) : list string :=
   match o with
   | OLeaf l => map kname (lmk l) ++ map kname (conds_keys (lcs l))
-  | OSub c f => map (name_map (km f)) (List.concat (map (fun m => List.concat (map op_names m)) c))
+  | OSub c f => map (name_map (km f)) (List.concat (map (fun m => List.concat (map op_names m)) c) ++ until_names f)
   end.
 Definition circ_names (c : circ) : list string := List.concat (map (fun m => List.concat (map op_names m)) c).
 
@@ -163,7 +167,10 @@ Definition t_inv (o : op) : res op :=
   match o with
   | OLeaf l => if isnil (lmk l) && isnil (lcs l)
                then Ok (OLeaf (Leaf (uid l) (negb (sgn l)) (lqs l) (lmk l) (lcs l) (lps l))) else ErrValue
-  | OSub c f => if op_invertible o then Ok (OSub c (set_reps f (rep_neg (reps f)))) else ErrValue
+  | OSub c f => match until f with
+                | Some _ => ErrValue      (* repeat(-1) of a loop: "Cannot use repetitions with repeat_until" *)
+                | None => if op_invertible o then Ok (OSub c (set_reps f (rep_neg (reps f)))) else ErrValue
+                end
   end.
 
 (* with_measurement_key_mapping *)
@@ -174,8 +181,17 @@ Definition t_kmap (m : kmap) (o : op) : op :=
   match o with
   | OLeaf l => OLeaf (Leaf (uid l) (sgn l) (lqs l) (map (key_map m) (lmk l))
                            (map (cond_key_map keepK keepM m) (lcs l)) (lps l))
+  | OSub c f => OSub c (set_km f (kmap_compose (str_nodup (circ_names c ++ until_names f)) (km f) m))
+  end.
+(* what CircuitOperation.with_measurement_key_mapping does today: the new dict is composed over the names the wrapped
+   CIRCUIT touches only, so a repeat_until key the body never mentions keeps its old name (defect F20) *)
+Definition t_kmap_body_only (m : kmap) (o : op) : op :=
+  match o with
+  | OLeaf l => t_kmap m o
   | OSub c f => OSub c (set_km f (kmap_compose (str_nodup (circ_names c)) (km f) m))
   end.
+(* the names the loop condition reads: its keys pushed through the operation's own key map *)
+Definition until_read_names (f : subf) : list string := map (name_map (km f)) (until_names f).
 (* Moment._with_measurement_key_mapping_ only touches operations that touch keys *)
 Definition moment_kmap (m : kmap) (mo : list op) : list op :=
   map (fun o => if isnil (op_names o) then o else t_kmap m o) mo.
@@ -293,6 +309,10 @@ Definition mapped_until (f : subf) (own_keys : list mkey) : option cond :=
   | Some u => let u1 := if isnil (km f) then u else cond_key_map keepK keepM (km f) u in
               Some (cond_rescope keepK keepM (ppath f) (ext f ++ own_keys) u1)
   end.
+
+(* a classically controlled leaf with condition u on qubits qs (uid 5 is X in the harness vocabulary): the probe the
+   harness appends to a loop body to observe, in a loop-free circuit, what the loop condition reads *)
+Definition probe_leaf (u : cond) (qs : list Z) : op := OLeaf (Leaf 5 false qs [] [u] []).
 
 (* CircuitOperation._control_keys *)
 Fixpoint op_ckeys (fuel : nat) (o : op) : res (list mkey) :=
